@@ -64,6 +64,10 @@ def eval_case(case):
                             'ssh-rsa-cert-v01@openssh.com': {'t': 'cert', 'kind': 'ssh-rsa-cert-v01@openssh.com', 'bits': 3072, 'ca': {'t': 'rsa', 'bits': 4096}}}
         spec['moduli'] = [2048, 4096]
         spec['gex_style'] = 'roundup'
+        # names the probe table does not list but that look like its entries are answered too (with a well-formed certificate)
+        for n in L[1]:
+            if '-cert-v' in n and n not in spec['hostkeys']:
+                spec['hostkeys'][n] = {'t': 'cert', 'kind': 'ssh-ed25519-cert-v01@openssh.com', 'ca': {'t': 'ed25519'}}
     peer = fakenet.Server(spec)
     net = fakenet.FakeNet()
     if role == 'server':
@@ -216,7 +220,7 @@ def strat_probe_lists():
         kex, key, opts, enc, mac, comp = t
         return {'proto': 2, 'role': 'server', 'opts': opts, 'probes': True, 'lists': [kex, key, enc, enc, mac, mac, comp, comp]}
     kexes = st.lists(st.sampled_from(['diffie-hellman-group-exchange-sha256', 'diffie-hellman-group-exchange-sha1', 'curve25519-sha256', 'diffie-hellman-group14-sha256', 'ecdh-sha2-nistp256', 'gss-gex-sha1-dZuIebMjgUqaxvbF7hDbAw==', 'sntrup761x25519-sha512@openssh.com']), min_size=1, max_size=5)
-    keys = st.lists(st.sampled_from(['ssh-rsa', 'rsa-sha2-256', 'rsa-sha2-512', 'ssh-ed25519', 'ssh-rsa-cert-v01@openssh.com', 'ecdsa-sha2-nistp256', 'ssh-dss', 'unknown-key-type']), min_size=1, max_size=6)
+    keys = st.lists(st.sampled_from(['ssh-rsa', 'rsa-sha2-256', 'rsa-sha2-512', 'ssh-ed25519', 'ssh-rsa-cert-v01@openssh.com', 'ecdsa-sha2-nistp256', 'ssh-dss', 'unknown-key-type', 'ssh-ed25519-cert-v02@openssh.com', 'ssh-rsa-cert-v02@openssh.com', 'ssh-ed448-cert-v01@openssh.com']), min_size=1, max_size=6)
     comp = st.lists(st.sampled_from(['none', 'zlib', 'zlib@openssh.com']), min_size=1, max_size=3, unique=True)
     return st.tuples(kexes, keys, st.sampled_from(RENDERINGS), gens.namelist('enc', min_size=1, max_size=3, empty=False, weird=False), gens.namelist('mac', min_size=1, max_size=3, empty=False, weird=False), comp).map(build)
 
